@@ -24,7 +24,7 @@ M = [
  ("C11-zero-validity", "proxy/certs/private_ca.go", 'ca.createCert([]string{host}, 240)', 'ca.createCert([]string{host}, 0)', "C11"),
  ("C11-cache-by-hostport", "proxy/certs/private_ca.go", 'ca.certs.Set(host, &tlsCert)', 'ca.certs.Set(host+":x", &tlsCert)', "C11"),
  ("C12-delete-skips-decrement", "cache/memory_cache.go", '\tdecrementCacheEntries()\n\tdecrementCacheSize(&c.byteSize, entry.meta.Size)\n\n\treturn nil\n}', '\tdecrementCacheEntries()\n\t_ = entry\n\n\treturn nil\n}', "C12"),
- ("C12-overwrite-subtracts-new", "cache/file_cache.go", 'decrementCacheSize(&c.byteSize, previous.Size)', 'decrementCacheSize(&c.byteSize, fileSize)', "C12"),
+ ("C12-overwrite-subtracts-new", "cache/file_cache.go", 'decrementCacheSize(&c.byteSize, previous.Size)', 'decrementCacheSize(&c.byteSize, previous.Size*0+fileSize)', "C12"),
  ("C13-target-100pc", "cache/cache_janitor.go", 'float64(maxCacheBytes) * 0.8', 'float64(maxCacheBytes) * 1.0', "C13"),
  ("C13-ascending-sort", "cache/cache_janitor.go", 'return cmp.Compare(y.priority, x.priority)', 'return cmp.Compare(x.priority, y.priority)', "C13"),
  ("C13-sweep-after", "cache/cache_janitor.go", '\t\texpired := meta.Expires.Before(time.Now())\n\t\tlock.RUnlock()', '\t\texpired := meta.Expires.Before(time.Now().Add(time.Second))\n\t\tlock.RUnlock()', "C13"),
@@ -39,6 +39,9 @@ M = [
  ("C19-unsubscribe-removes-first", "utils/event/event.go", 'if s == sub {', 'if s == sub || i == 0 {', "C19"),
  ("C20-me-no-auth", "webserver/api/auth/me.go", 'RequiresAuth: true', 'RequiresAuth: false', "C20"),
  ("C20-expiry-compare-wrong", "webserver/auth/session.go", 'if !sess.ExpiresAt.After(time.Now()) {', 'if !sess.ExpiresAt.After(time.Now().Add(-5 * time.Minute)) {', "C20"),
+ ("C03-age-drops-resident-time", "proxy/cache_status_headers.go", 'currentAge := max(0, correctedInitialAge+residentTime)', 'currentAge := max(0, correctedInitialAge)\n\t_ = residentTime', "C03"),
+ ("C03-ttl-from-written", "proxy/cache_status_headers.go", 'ttl := max(0, int(time.Until(cached.ForceUnwrap().Metadata.Expires).Seconds()))', 'ttl := max(0, int(cached.ForceUnwrap().Metadata.Expires.Sub(cached.ForceUnwrap().Metadata.TimeWritten).Seconds()))', "C03"),
+ ("C19-log-level-ignored", "logging/logging.go", '\t\tlogLevel.Set(newLevel)\n\t\tslog.Info("Log level changed by configuration"', '\t\t_ = newLevel\n\t\tslog.Info("Log level changed by configuration"', "C19"),
  ("C01-file-create-in-place", "cache/file_cache.go", 'tmpName := fileName + ".tmp"', 'tmpName := fileName', "C01"),
  ("C01-memory-shares-buffer", "cache/memory_cache.go", 'buf := bytes.NewBuffer(make([]byte, 0, INIT_BUFFER_SIZE))', 'buf := sharedBuf\n\tbuf.Reset()', "C01"),
 ]
